@@ -237,6 +237,13 @@ def run_case(case):
         if sharded:
             cfg = shardlib.gen_config(random.Random(case["vseed"]), "quick")
             info["scales"][0]["sharding"] = shardlib.sharding_of(cfg)
+        if out_dt.name == "uint8" and C in (1, 3) and case["vseed"] % 3 == 0:
+            # the info describes a pyramid whose coarser scale uses another (lossy) encoding;
+            # the slices go into the first scale, with ITS encoding
+            info["scales"].append({"key": "k_half", "size": [-(-s_ // 2) for s_ in size],
+                                   "chunk_sizes": [cs], "encoding": "jpeg",
+                                   "resolution": [2, 2, 2], "voxel_offset": [0, 0, 0]})
+            obs["pyramid_infos_with_a_lossy_coarser_scale"] = 1
         with open(os.path.join(dest, "info"), "w") as f:
             json.dump(info, f)
         ctx = (f"code {code} stack(col,row,slice)=({ncol},{nr},{ns}) chunk {cs} channels "
@@ -328,6 +335,8 @@ def gates(obs, tier):
         "slice_counts_below_equal_and_partial": all(sg.get(k, 0) > 0 for k in
                                                     ("fewer", "equal", "partial_last")),
         "rgb_and_multi_directory": obs.get("rgb", 0) > 0 and obs.get("multi_dir", 0) > 0,
+        "pyramid_infos_with_a_lossy_coarser_scale": obs.get(
+            "pyramid_infos_with_a_lossy_coarser_scale", 0) > 5,
         "uint16_and_tiff": obs.get("uint16", 0) > 0 and obs.get("tiff", 0) > 0,
         "stacks_mixing_8_and_16_bit_slices": obs.get(
             "stacks_mixing_8_and_16_bit_slices", 0) > 5,
